@@ -11,6 +11,7 @@
  *   --torn K              with --kill-at on a write/pwrite64: shorten it to K bytes, kill at its exit
  *   --inject N:ERRNO      visible call N fails with ERRNO (repeatable)
  *   --short N:K:ERRNO     visible call N (write) is shortened to K bytes; the next write on that fd fails
+ *                         with ERRNO (ERRNO 0: nothing fails, a plain short write)
  *   --sched PREFIX        comma separated process indices, schedule control for >= 2 commands
  *   --tail first|rr|rand:SEED   policy once the prefix is exhausted (default first)
  *   --nosched LIST        comma separated syscall names that are never scheduling points
@@ -592,8 +593,10 @@ static int on_entry(struct thr *t) {
             if ((t->nr == SYS_write || t->nr == SYS_pwrite64) && (long long)t->a[2] > inj[i].shortk) {
                 r.rdx = (unsigned long long)inj[i].shortk;
                 ptrace(PTRACE_SETREGS, t->tid, 0, &r);
-                p->failfd = (int)t->fdarg;
-                p->failfd_errno = inj[i].err;
+                if (inj[i].err) { /* errno 0: a plain (legal) short write, nothing fails afterwards */
+                    p->failfd = (int)t->fdarg;
+                    p->failfd_errno = inj[i].err;
+                }
                 t->count = inj[i].shortk;
             } else {
                 t->inject_errno = inj[i].err;
